@@ -72,6 +72,8 @@ type Contract struct {
 	InLoops  map[string]*LoopSpec // loops of inlined callees: "Reduce.0"
 	InlineCalls []string
 	IntWidth64 bool
+	Repeats    string  // ext: this function-typed parameter is called an arbitrary number of times
+	RepeatArgs []SExpr // condition on the arguments (cbarg0, cbarg1, ...) of each such call
 	AnyKinds   []string // type parameters verified both as a concrete (non-interface) and as an interface type
 	Dispatch []Dispatch
 	Pure     bool
@@ -111,7 +113,8 @@ type Anchored struct {
 	When   string // before / after
 	Callee string // name of the called function or method
 	Ord    int
-	Kind   string // ghost, assert, assume
+	Kind   string // ghost, assert, assume, havoc
+	Havoc  []SExpr
 	Ghost  *GhostUpd
 	E      SExpr
 	Src    string
@@ -130,7 +133,7 @@ type PkgSpec struct {
 	Axioms    []*Clause
 }
 
-var kwRe = regexp.MustCompile(`^(pure|pred|ghostinit|ghost|func|props|requires|ensures|panics|pensures|modifies|ghostparam|uses|inlinecall|dispatch|intwidth|anykinds|loop|ext|lemma|axiom|inline|trusted|decreases|ispure|params|results|end|sort|ufun|callback|before|after|invokes)\b`)
+var kwRe = regexp.MustCompile(`^(pure|pred|ghostinit|ghost|func|props|requires|ensures|panics|pensures|modifies|ghostparam|uses|inlinecall|dispatch|intwidth|anykinds|repeats|repeatargs|loop|ext|lemma|axiom|inline|trusted|decreases|ispure|params|results|end|sort|ufun|callback|before|after|invokes)\b`)
 
 func loadPkgSpec(dir, pkgPath string) (*PkgSpec, error) {
 	ps := &PkgSpec{Path: pkgPath, Macros: map[string]*Macro{}, Ghosts: map[string]*GhostField{}, Contracts: map[string]*Contract{}, Sorts: map[string]bool{}, UFuns: map[string]*UFun{}, Callbacks: map[string]*Contract{}}
@@ -281,6 +284,15 @@ func (ps *PkgSpec) parseFile(file, data string) error {
 					return errf("%v", err)
 				}
 				an.Kind, an.Ghost, an.Src = "ghost", g, body
+			case strings.HasPrefix(body, "havoc "):
+				an.Kind, an.Src = "havoc", body
+				for _, part := range splitTop(strings.TrimSpace(body[6:]), ',') {
+					e, err := parseSpec(strings.TrimSpace(part))
+					if err != nil {
+						return errf("%v", err)
+					}
+					an.Havoc = append(an.Havoc, e)
+				}
 			case strings.HasPrefix(body, "assert "), strings.HasPrefix(body, "assume "):
 				an.Kind = body[:6]
 				props, b := splitProps(strings.TrimSpace(body[7:]))
@@ -402,6 +414,14 @@ func (ps *PkgSpec) parseFile(file, data string) error {
 				d.Ord, _ = strconv.Atoi(strings.Trim(fs[0][bi:], "[]"))
 			}
 			cur.Dispatch = append(cur.Dispatch, d)
+		case "repeats":
+			cur.Repeats = strings.TrimSpace(rest)
+		case "repeatargs":
+			e, err := parseSpec(rest)
+			if err != nil {
+				return errf("%v", err)
+			}
+			cur.RepeatArgs = append(cur.RepeatArgs, e)
 		case "anykinds":
 			cur.AnyKinds = append(cur.AnyKinds, strings.Fields(strings.ReplaceAll(rest, ",", " "))...)
 		case "intwidth":
